@@ -272,8 +272,25 @@ def run_link_property(ctx, pid, gen_cases, oracle, classify, rule, nontrivial, a
     cases = corpus + gen
     results = run_impl(ctx, cases, pid.lower())
     ctx.log("ran %d scripts through the implementation" % len(cases))
+    # scripts with several connections (or connections established later) and operations: all connections together through
+    # Model/MultiRun.v (they share the chain and the lock that serialises operations and connection set-up)
+    mstats = {"multi_connection_scripts_validated_against_impl": 0, "multi_connection_mismatches": 0, "multi_connection_not_decided": 0}
+    multi_mism = {}
+    if reconf and os.path.exists(os.path.join(C.COQ, "Run", "ReconfCases.vo")):
+        midx = [i for i, c in enumerate(cases) if multi_eligible(c) and c.get("ops")]
+        mv, mcov = multi_verdicts(ctx, cases, results, midx, pid.lower())
+        mstats["multi_connection_scripts_validated_against_impl"] = mcov
+        for i, (v, k) in mv.items():
+            if v == 0:
+                continue
+            if v >= 200 and k == 0:
+                multi_mism[i] = v
+                mstats["multi_connection_mismatches"] += 1
+            else:
+                mstats["multi_connection_not_decided"] += 1      # scheduler choices (no search here), fuel, not covered
     # further links of a multi-link case are judged like cases of their own (same script, own observations)
     nbase = len(cases)
+    more_saved = {}
     for i in range(nbase):
         r = results[i]
         if r and r.get("more"):
@@ -290,6 +307,7 @@ def run_link_property(ctx, pid, gen_cases, oracle, classify, rule, nontrivial, a
                     m["ops_shared"] = r["ops"]          # the operations' timing, observed once per script
                 cases.append(ck)
                 results.append(m)
+            more_saved[i] = r["more"]
             r["more"] = None
     failing = []
     wedged = 0
@@ -352,6 +370,9 @@ def run_link_property(ctx, pid, gen_cases, oracle, classify, rule, nontrivial, a
                 rstats["reconf_mismatches"] += 1
             elif v != 0:
                 rstats["reconf_not_covered_by_model"] += 1
+    mism.update(multi_mism)
+    rstats.update(mstats)
+    rstats["reconf_traces_validated_against_impl"] += mstats["multi_connection_scripts_validated_against_impl"]
     failing.sort()
     ctx.log("oracle failures: %d, model mismatches: %d (reconfiguration scripts replayed: %d)" % (len(failing), len(mism), rstats["reconf_traces_validated_against_impl"]))
 
@@ -392,7 +413,8 @@ def run_link_property(ctx, pid, gen_cases, oracle, classify, rule, nontrivial, a
                         "model and implementation disagree on %d scripts (verdict code %d on the smallest) although every "
                         "implementation trace satisfies the oracle" % (len(mism), mism[i]),
                         {"kind": "correspondence", "case": cases[i], "observed": results[i],
-                         "model_predicts": (reconf_trace(ctx, cases[i], pid.lower() + "_rtrace") if cases[i].get("ops")
+                         "model_predicts": (multi_trace(ctx, cases[i], dict(results[i], more=more_saved.get(i)), pid.lower() + "_mtrace") if i in multi_mism else
+                                            reconf_trace(ctx, cases[i], pid.lower() + "_rtrace") if cases[i].get("ops")
                                             else model_trace(ctx, cases[i], pid.lower() + "_trace"))}, has_input=False)
     rc, nviol = verdict.finish()
     nt = set(json.dumps(c, sort_keys=True) for c in cases if nontrivial(c))
@@ -548,5 +570,73 @@ def reconf_trace(ctx, case, tag="rtrace"):
     body = "From TP Require Import Model.Prelude Extracted Model.Toxics Model.Timed Model.Reconf Model.ReconfRun Run.LinkRun Run.ReconfCases.\n"
     rc0 = coq_rcase(case, {"writes": [], "closed": -1}, ops)
     body += "Eval vm_compute in rmodel_trace false (%s).\nEval vm_compute in rmodel_trace true (%s).\n" % (rc0, rc0)
+    rc, out = C.coq_eval(ctx, tag, body)
+    return " ".join(out.split())[:4000]
+
+
+# ---------------------------------------------------------------- several connections under one history (Model/MultiRun.v)
+def multi_eligible(case):
+    nl = case.get("links") or 1
+    ls = case.get("link_start") or []
+    return (nl > 1 or any(ls)) and not case.get("sink_fail_after") and not case.get("reseed")
+
+
+def coq_mcase(case, res, ops):
+    nl = case.get("links") or 1
+    ls = list(case.get("link_start") or []) + [0] * nl
+    srcs = case.get("srcs") or []
+    obs = [res] + list(res.get("more") or res.get("more_all") or [])
+    order = sorted(range(nl), key=lambda k: (ls[k], k))
+    links = ["(%s, (%s, %s))" % (C.coq_z(ls[k]), coq_src(srcs[k] if k < len(srcs) else case["src"]), C.coq_zlist(case.get("sink_delay") or []))
+             for k in order]
+    ob = ["(%s, %s)" % (C.coq_list(["(%d, %d)" % (w["t"], w["n"]) for w in (obs[k]["writes"] or [])]), C.coq_z(obs[k]["closed"])) for k in order]
+    return "mkMCase %s %s %s %s %d %s" % (coq_chain(case["chain"]), C.coq_list(links), C.coq_list(ops), C.coq_z(case["horizon"]),
+                                          nl * fuel_reconf(dict(case, src=[e for s in (srcs or [case["src"]]) for e in s])) + 200, C.coq_list(ob))
+
+
+def multi_verdicts(ctx, cases, results, idx, tag):
+    todo = []
+    for i in idx:
+        c, r = cases[i], results[i]
+        if not multi_eligible(c) or r is None or "crash" in r or r.get("hang") or any(o.get("err") for o in (r.get("ops") or [])):
+            continue
+        if len(r.get("more") or r.get("more_all") or []) != (c.get("links") or 1) - 1:
+            continue
+        ops = reconf_ops(dict(c, links=1, link_start=None, srcs=None))
+        if ops is None:
+            continue
+        todo.append((i, ops))
+    if not todo:
+        return {}, 0
+    shard = max(6, -(-len(todo) // 14))
+    import re
+
+    def one(s):
+        part = todo[s:s + shard]
+        body = "From TP Require Import Model.Prelude Extracted Model.Toxics Model.Timed Model.Reconf Model.ReconfRun Model.MultiRun Run.LinkRun Run.ReconfCases.\n"
+        for j, (i, ops) in enumerate(part):
+            body += "Eval vm_compute in (%d, mverdict (%s)).\n" % (j, coq_mcase(cases[i], results[i], ops))
+        rc, out = C.coq_eval(ctx, "%s_m%d" % (tag, s // shard), body)
+        if rc != 0:
+            k = out.find("Error")
+            raise C.BuildError("model evaluation failed:\n" + (out[max(0, k - 300):k + 800] if k >= 0 else out[-1500:]))
+        found = re.findall(r"=\s*\((\d+),\s*\((\d+),\s*(\d+)\)\)", " ".join(out.split()))
+        if len(found) != len(part):
+            raise C.BuildError("model evaluation: expected %d results\n%s" % (len(part), out[-1500:]))
+        return {part[int(j)][0]: (int(v), int(k)) for j, v, k in found}
+
+    allv = {}
+    with ThreadPoolExecutor(max_workers=14) as ex:
+        for r in ex.map(one, range(0, len(todo), shard)):
+            allv.update(r)
+    return allv, len(todo)
+
+
+def multi_trace(ctx, case, res, tag="mtrace"):
+    ops = reconf_ops(dict(case, links=1, link_start=None, srcs=None))
+    if ops is None:
+        return None
+    body = "From TP Require Import Model.Prelude Extracted Model.Toxics Model.Timed Model.Reconf Model.ReconfRun Model.MultiRun Run.LinkRun Run.ReconfCases.\n"
+    body += "Eval vm_compute in mmodel_trace (%s).\n" % coq_mcase(case, res, ops)
     rc, out = C.coq_eval(ctx, tag, body)
     return " ".join(out.split())[:4000]
